@@ -559,6 +559,26 @@ def explore_params(ctx, extended=False):
                           f"reading is {want}", text=text)
             except AbsRaise as e:
                 F.add("reader", f"Parameters.from_ical({text!r}) raises {e.cls_name}", text=text)
+        # the same value in every form a caller may supply it: a text-like property object as the
+        # parameter value, and the parameters= argument of Component.add (empty text is a value)
+        for value in ("plain", "Doe, John", "a;b:c", "", "x\\y" if extended else "y"):
+            F.n += 1
+            try:
+                as_str = emit(mk_params(it, model, {"CN": value}))
+                as_obj = emit(mk_params(it, model, {"CN": it.instantiate(model.cls("prop.vText"), [value], {})}))
+                if as_obj != as_str:
+                    F.add("round trip", "a parameter value given as a vText object is written differently "
+                          "from the same text given as str", value=value, as_str=as_str, as_vtext=as_obj)
+                ev = it.instantiate(model.cls("cal.Event"), [], {})
+                it.run(it.getattr(ev, "add"), ["attendee", "mailto:x@example.com"], {"parameters": {"CN": value}})
+                stored_ = ev.items.get("ATTENDEE")
+                sp = _params_dict(it, stored_.attrs.get("params")) if isinstance(stored_, Obj) else None
+                if sp is None or norm_value(sp.get("CN")) != norm_value(value):
+                    F.add("round trip", "a parameter supplied through Component.add(..., parameters=) is not "
+                          "stored on the value as given", value=value, stored=sp)
+            except AbsRaise as e:
+                F.add("serialisable", f"a parameter value {value!r} given as an object / through "
+                      f"Component.add raises {e.cls_name}", value=value)
         for text in ('K=a"b', 'K=\x01', 'K="a\x7f"', ':=1', 'K K=1', '=1'):
             F.n += 1
             try:
